@@ -20,6 +20,7 @@ import (
 	"encoding/json"
 	"fmt"
 	"io/ioutil"
+	"math"
 	"os"
 	"path/filepath"
 	"sort"
@@ -1621,12 +1622,22 @@ func (b *bsiGroup) validate() error {
 
 // bitDepthMin returns the minimum value possible for the current bit depth.
 func (b *bsiGroup) bitDepthMin() int64 {
-	return b.Base - (1 << b.BitDepth) + 1
+	// Largest magnitude for the bit depth (2^63-1 at depth 63 by wrap-around).
+	d := int64(1)<<b.BitDepth - 1
+	if b.Base < math.MinInt64+d {
+		return math.MinInt64
+	}
+	return b.Base - d
 }
 
 // bitDepthMax returns the maximum value possible for the current bit depth.
 func (b *bsiGroup) bitDepthMax() int64 {
-	return b.Base + (1 << b.BitDepth) - 1
+	// Largest magnitude for the bit depth (2^63-1 at depth 63 by wrap-around).
+	d := int64(1)<<b.BitDepth - 1
+	if b.Base > math.MaxInt64-d {
+		return math.MaxInt64
+	}
+	return b.Base + d
 }
 
 // Cache types.
